@@ -1,3 +1,4 @@
 import Cell2v.Audit
 import Cell2v.Props.C09
+import Cell2v.Props.C09Ring
 #audit_ns Cell2v.Props.C09
